@@ -1,4 +1,4 @@
-import RsMatterVerif.Lemmas.ExpandSwap
+import RsMatterVerif.Lemmas.ExpandEvents
 /-!
 # C06 — every Interaction Model operation is mediated by the access check
 
@@ -383,6 +383,180 @@ theorem node_swap_safe (ctx : Ctx) (op : Operation) (p : Path) (hsw : SupportedW
     rw [wEndpointsFrom_zero]
     exact List.mem_flatMap.mpr ⟨E, hE n hn, ho⟩
 
+/-! ## the whole request as the controller and the handlers see it (`imRequest`) -/
+
+/-- handlers are called for the items of the answer and for nothing else -/
+theorem e2e_effects_are_items (op : Operation) (flag : Bool) (tr : Option (Nat × Nat)) (paths : List Path)
+    (answers : List Out) :
+    (imRequest op flag tr paths answers).effects = itemsOf (imRequest op flag tr paths answers).resp := by
+  unfold imRequest
+  simp only
+  generalize (if (op == Operation.read) = true then TimedGate.proceed
+    else timedGate flag (tr.map (·.1)) ((tr.map (·.2)).getD 0)) = g
+  cases g with
+  | proceed => simp only; split <;> rfl
+  | timedRequestMismatch => rfl
+  | timeout => rfl
+
+/-- a write / invoke whose timed gate is not open (flag without a live TimedRequest window, or a
+TimedRequest without the flag) has no effect and no per-path answer -/
+theorem e2e_gate_closed_no_effect (op : Operation) (flag : Bool) (tr : Option (Nat × Nat)) (paths : List Path)
+    (answers : List Out) (hop : op ≠ .read)
+    (hg : timedGate flag (tr.map (·.1)) ((tr.map (·.2)).getD 0) ≠ .proceed) :
+    (imRequest op flag tr paths answers).effects = [] ∧ (imRequest op flag tr paths answers).resp = [] ∧
+      (imRequest op flag tr paths answers).top.isSome = true := by
+  unfold imRequest
+  have : (op == Operation.read) = false := by cases op <;> simp_all
+  simp only [this, Bool.false_eq_true, if_false]
+  cases hgt : timedGate flag (tr.map (·.1)) ((tr.map (·.2)).getD 0) with
+  | proceed => exact absurd hgt hg
+  | timedRequestMismatch => exact ⟨rfl, rfl, rfl⟩
+  | timeout => exact ⟨rfl, rfl, rfl⟩
+
+theorem mem_itemsOf {outs : List Out} {t : Nat × Nat × Nat} (h : t ∈ itemsOf outs) :
+    ∃ w a, Out.item t.1 t.2.1 t.2.2 w a ∈ outs := by
+  unfold itemsOf at h
+  obtain ⟨o, ho, hs⟩ := List.mem_filterMap.mp h
+  cases o with
+  | item ep cl lf w a =>
+    simp only [Option.some.injEq] at hs
+    subst hs
+    exact ⟨w, a, ho⟩
+  | status p s => simp at hs
+
+theorem effects_subset_items (op : Operation) (flag : Bool) (tr : Option (Nat × Nat)) (paths : List Path)
+    (answers : List Out) (t : Nat × Nat × Nat) (h : t ∈ (imRequest op flag tr paths answers).effects) :
+    t ∈ itemsOf answers ∧
+      (op ≠ .read → timedGate flag (tr.map (·.1)) ((tr.map (·.2)).getD 0) = .proceed) := by
+  unfold imRequest at h
+  cases hop : (op == Operation.read) with
+  | true =>
+    have : op = .read := by simpa using hop
+    simp only [hop, if_true] at h
+    split at h
+    · cases h
+    · exact ⟨h, fun hh => absurd this hh⟩
+  | false =>
+    simp only [hop, Bool.false_eq_true, if_false] at h
+    cases hgt : timedGate flag (tr.map (·.1)) ((tr.map (·.2)).getD 0) with
+    | proceed =>
+      simp only [hgt] at h
+      split at h
+      · cases h
+      · exact ⟨h, fun _ => rfl⟩
+    | timedRequestMismatch => simp only [hgt] at h; cases h
+    | timeout => simp only [hgt] at h; cases h
+
+/-- **Every effect on the device is a permitted existing item**: whatever the request, a handler
+call happens only for an enabled leaf of the node that matches a requested path, is reachable, and
+is `permitted` by the specification (through `expanded_items_permitted`). -/
+theorem e2e_effect_permitted (ctx : Ctx) (op : Operation) (node : Node) (paths : List Path) (fuel : Nat)
+    (tr : Option (Nat × Nat)) (hn : nodeWF node = true) (hwf : WF ctx.fabrics) (hc : CanonicalPrivs ctx.fabrics)
+    (t : Nat × Nat × Nat)
+    (h : t ∈ (imRequest op ctx.timed tr paths (expand ctx op node paths fuel)).effects) :
+    ∃ e ∈ node, e.id = t.1 ∧ ∃ c ∈ e.clusters, c.id = t.2.1 ∧ ∃ l ∈ specLeaves c op, l.id = t.2.2 ∧
+      reachable ctx e = true ∧ permitted ctx op e c l = none ∧ ∃ p ∈ paths, PathMatches p t.1 t.2.1 t.2.2 := by
+  obtain ⟨hi, _⟩ := effects_subset_items op ctx.timed tr paths _ t h
+  obtain ⟨w, a, hm⟩ := mem_itemsOf hi
+  obtain ⟨e, he, hid, c, hcm, hci, l, hl, hli, hr, _, hp, hpm⟩ :=
+    expanded_items_permitted ctx op node paths fuel t.1 t.2.1 t.2.2 w a hn hwf hc hm
+  exact ⟨e, he, hid, c, hcm, hci, l, hl, hli, hr, hp, hpm⟩
+
+/-- **Timed-only elements act only inside a timed interaction that has not expired**: an effect of
+a write / invoke on an element whose declaration is timed-only implies that the action carried the
+timed flag, was preceded by a TimedRequest, and arrived before the window closed. -/
+theorem e2e_timed_only_live (ctx : Ctx) (op : Operation) (node : Node) (paths : List Path) (fuel : Nat)
+    (tr : Option (Nat × Nat)) (hop : op ≠ .read) (t : Nat × Nat × Nat)
+    (h : t ∈ (imRequest op ctx.timed tr paths (expand ctx op node paths fuel)).effects) :
+    ∃ e ∈ node, e.id = t.1 ∧ ∃ c ∈ e.clusters, c.id = t.2.1 ∧
+      (contains (if op = .invoke then cmdPerms c t.2.2 else attrPerms c t.2.2) Consts.accTimedOnly = true →
+        ctx.timed = true ∧ ∃ timeout elapsed, tr = some (timeout, elapsed) ∧ elapsed ≤ timeout) := by
+  obtain ⟨hi, hg⟩ := effects_subset_items op ctx.timed tr paths _ t h
+  obtain ⟨w, a, hm⟩ := mem_itemsOf hi
+  obtain ⟨e, he, hid, c, hc, hci, himp⟩ := timed_only_needs_timed ctx op node paths fuel t.1 t.2.1 t.2.2 w a hop hm
+  refine ⟨e, he, hid, c, hc, hci, fun ht => ?_⟩
+  have hflag := himp ht
+  refine ⟨hflag, ?_⟩
+  obtain ⟨h1, _⟩ := timed_gate_live _ _ _ (hg hop)
+  obtain ⟨tt, htt, hle⟩ := h1 hflag
+  cases tr with
+  | none => simp at htt
+  | some pr =>
+    obtain ⟨a1, a2⟩ := pr
+    simp only [Option.map_some, Option.some.injEq, Option.getD_some] at htt hle
+    subst htt
+    exact ⟨a1, a2, rfl, hle⟩
+
+/-- in scope of `C06_full` the whole outcome (request-level status, per-path answers, handler calls)
+is the specification's -/
+theorem e2e_outcome_eq_spec (ctx : Ctx) (op : Operation) (node : Node) (paths : List Path)
+    (flag : Bool) (tr : Option (Nat × Nat))
+    (hn : nodeWF node = true) (hwf : WF ctx.fabrics) (hc : CanonicalPrivs ctx.fabrics) :
+    imRequest op flag tr paths (expand ctx op node paths (fuelBound op node paths)) =
+      imRequest op flag tr paths (expected ctx op node paths) := by
+  rw [expand_at_bound_eq_expected ctx op node paths hn hwf hc]
+
+/-! ## events -/
+
+/-- the full statement for event paths: the answer is the specification's list -/
+def Events_full : Prop :=
+  ∀ (ctx : Ctx) (node : Node) (ff : Bool) (paths : List Path) (queue : List EventOcc),
+    eventsWF node = true → WF ctx.fabrics → CanonicalPrivs ctx.fabrics →
+    ctx.accessor.authMode ≠ some AuthMode.group →
+    reportEvents ctx node ff paths queue = expectedEvents ctx node ff paths queue
+
+/-- **Event paths, proved part**: equality with the specification except that a concrete path naming
+an absent event gets no `UnsupportedEvent` status (finding `C06-absent-event-silent`). -/
+theorem events_eq_spec_partial (ctx : Ctx) (node : Node) (ff : Bool) (paths : List Path)
+    (queue : List EventOcc)
+    (hev : eventsWF node = true) (hwf : WF ctx.fabrics) (hcan : CanonicalPrivs ctx.fabrics)
+    (hg : ctx.accessor.authMode ≠ some AuthMode.group) :
+    reportEvents ctx node ff paths queue = expectedEventsSilent ctx node ff paths queue :=
+  reportEvents_eq_expectedSilent ctx node ff paths queue hev hwf hcan hg
+
+/-- every disclosed occurrence exists on the node, is permitted, matches a requested path and passes
+the fabric filter -/
+theorem event_disclosed_visible (ctx : Ctx) (node : Node) (ff : Bool) (paths : List Path)
+    (queue : List EventOcc)
+    (hev : eventsWF node = true) (hwf : WF ctx.fabrics) (hcan : CanonicalPrivs ctx.fabrics)
+    (hg : ctx.accessor.authMode ≠ some AuthMode.group) (o : EventOcc)
+    (h : EvOut.data o ∈ reportEvents ctx node ff paths queue) :
+    o ∈ queue ∧ eventVisible ctx node ff paths o = true := by
+  rw [events_eq_spec_partial ctx node ff paths queue hev hwf hcan hg] at h
+  unfold expectedEventsSilent expectedEvents at h
+  obtain ⟨h, _⟩ := List.mem_filter.mp h
+  rcases List.mem_append.mp h with h | h
+  · obtain ⟨p, _, hp⟩ := List.mem_filterMap.mp h
+    split at hp
+    · obtain ⟨s, _, hs⟩ := Option.map_eq_some_iff.mp hp
+      cases hs
+    · cases hp
+  · obtain ⟨o', ho', heq⟩ := List.mem_map.mp h
+    injection heq with heq
+    subst heq
+    exact ⟨(List.mem_filter.mp ho').1, (List.mem_filter.mp ho').2⟩
+
+/-- **fabric-sensitive events of other fabrics are not disclosed** (no hypotheses): with fabric
+filtering on, a reported occurrence carries no fabric index or the requester's -/
+theorem event_other_fabric_not_disclosed (ctx : Ctx) (node : Node) (paths : List Path)
+    (queue : List EventOcc) (o : EventOcc)
+    (h : EvOut.data o ∈ reportEvents ctx node true paths queue) :
+    o.fab = 0 ∨ o.fab = ctx.accessor.fabIdx := by
+  unfold reportEvents at h
+  rcases List.mem_append.mp h with h | h
+  · obtain ⟨p, _, hp⟩ := List.mem_filterMap.mp h
+    split at hp
+    · split at hp <;> simp at hp
+    · cases hp
+  · obtain ⟨o', ho', heq⟩ := List.mem_map.mp h
+    injection heq with heq
+    subst heq
+    have := (List.mem_filter.mp ho').2
+    simp only [Bool.not_true, Bool.false_or, Bool.and_eq_true] at this
+    have hf := this.1.1
+    unfold matchesFabric at hf
+    simpa using hf
+
 /-! ## non-vacuity -/
 
 /-- endpoint 0: cluster 31 with attribute 0 (`RWVA`) and command 0 (`WA`, fabric-scoped);
@@ -474,5 +648,33 @@ example : runSwap demoCtxAll .read [demoNode, demoNode2, demoNode2, demoNode, de
     swapEnded demoCtxAll .read [demoNode, demoNode2, demoNode2, demoNode, demoNode, demoNode] { items := [wild] } = true := by
   decide
 example : SupportedWildcard .read wild := ⟨rfl, Or.inl rfl⟩
+
+/-- events: endpoint 1 / cluster 6 with events 0 (`RV`) and 1 (`R` + Manage) -/
+def demoNodeEv : Node :=
+  [ { id := 1, deviceTypes := [256], clusters :=
+      [ { id := 6, attrs := [], cmds := [],
+          events := [ { id := 0, access := 17, array := false, enabled := true },
+                      { id := 1, access := 20, array := false, enabled := true } ] } ] } ]
+def evq : List EventOcc :=
+  [ { ep := 1, cl := 6, ev := 0, fab := 0, num := 1 }, { ep := 1, cl := 6, ev := 1, fab := 0, num := 2 },
+    { ep := 1, cl := 6, ev := 0, fab := 2, num := 3 }, { ep := 1, cl := 6, ev := 7, fab := 0, num := 4 } ]
+/-- an Operate requester: event 0 disclosed (not the occurrence of fabric 2, not the absent event 7),
+event 1 (needs Manage) omitted by the wildcard and refused with a status when named -/
+def demoAclOp : List Fabric :=
+  [ { fabIdx := 1,
+      acl := [ { privilege := PRIV_OPERATE, authMode := .case, subjects := some [5], targets := none, fabIdx := some 1 } ],
+      groups := [] } ]
+def demoCtxOp : Ctx := { demoCtx false with fabrics := demoAclOp }
+example : reportEvents demoCtxOp demoNodeEv true [wild, conc 1 6 1, conc 1 9 0] evq =
+    [.status (conc 1 6 1) .unsupportedAccess, .status (conc 1 9 0) .unsupportedCluster, .data evq[0]!] := by decide
+/-- the full statement fails on the code's model: a concrete path naming an absent event -/
+example : reportEvents demoCtxOp demoNodeEv true [conc 1 6 7] evq = [] ∧
+    expectedEvents demoCtxOp demoNodeEv true [conc 1 6 7] evq = [.status (conc 1 6 7) .unsupportedEvent] := by decide
+/-- the request-level gates -/
+example : (imRequest .write true (some (100, 101)) [conc 1 6 1] []).top = some "Timeout" ∧
+    (imRequest .write true (some (100, 100)) [conc 1 6 1] [.item 1 6 1 false false]).effects = [(1, 6, 1)] ∧
+    (imRequest .write true none [conc 1 6 1] []).top = some "TimedRequestMisMatch" ∧
+    (imRequest .read false none [{ endpoint := none, cluster := none, leaf := some 0 }] []).top = some "InvalidAction" := by
+  decide
 
 end C06
